@@ -248,7 +248,15 @@ def processRun (run : Str × List Feat) : R Group := do
   let ts' := if ts.length > 1 && cs.length > 1 then ts.take 1 else ts
   pure ⟨run.1, g, ts', cs⟩
 
-def groupSorted (fs : List Feat) : R (List Group) := (groupRuns fs).mapM processRun
+/-- the outer `for locus_tag, gene_features in itertools.groupby(...)` loop (the first error aborts it) -/
+def processRuns : List (Str × List Feat) → R (List Group)
+  | [] => pure []
+  | r :: rs => do
+    let g ← processRun r
+    let gs ← processRuns rs
+    pure (g :: gs)
+
+def groupSorted (fs : List Feat) : R (List Group) := processRuns (groupRuns fs)
 
 /-- sort (LocusTagGenBankParser._extract_seqfeatures_from_seqrecords) + `_group_features_by_locus_tag` -/
 def groupByLocusTag (fs : List Feat) : R (List Group) := groupSorted (sortByTag fs)
